@@ -327,11 +327,18 @@ def pooled_kind(verb):
     return sub(verb)
 
 
-def enabled(n_tables, pos=0):
+# thorough tier: from the third event on only the verbs that pass pooled objects around
+CORE_NAMES = {("mutate", "a"), ("summarize", "s"), ("mutate", "w"), ("mutate", "v"), ("mutate", "o"), ("mutate", "x"), ("mutate", "y2")}
+CORE = [v for v in VERBS if (v[0] in ("mutate", "summarize") and v[1] and (v[0], v[1][0][0]) in CORE_NAMES)
+        or v == ["group_by", [src("g")]] or v == ["ungroup"] or v == ["alias"]]
+
+
+def enabled(n_tables, pos=0, deep_core=False):
     evs = []
     for ti in range(n_tables):
         # extra verbs: as first event, and as second event on the source table (a sibling derivation)
-        for v in VERBS + (EXTRA if pos == 0 or (pos == 1 and ti == 0) else []):
+        verbs = CORE if (deep_core and pos >= 2) else VERBS
+        for v in verbs + (EXTRA if pos == 0 or (pos == 1 and ti == 0) else []):
             evs.append(["apply", ti, v])
         for o in OBS:
             evs.append([o, ti])
@@ -345,7 +352,7 @@ def explore(backend, first_idx, depth):
     samples = []
 
     def dfs(seq, n_tables):
-        evs = enabled(n_tables, len(seq))
+        evs = enabled(n_tables, len(seq), deep_core=depth >= 4)
         for i, ev in enumerate(evs):
             if not seq and i not in first_idx:
                 continue
@@ -448,6 +455,7 @@ def describe(tier):
         "observations": OBS,
         "events": "apply(<verb with pooled expressions>, T_i) for every pooled table T_i (the result joins the pool) | export(T_i) | build_query(T_i) | str(T_i)",
         "depth": DEPTH[tier],
+        "thorough_deep_positions": "at depth 4 the third and fourth event are taken from the core verbs " + ", ".join(T.py_event(v).replace("pdt.lit", "lit")[:40] for v in CORE),
         "enabled_events_at_root": len(enabled(1)),
         "input_family": "one 5-row table with nulls, two groups and a null group",
         "backends": list(W.BACKENDS),
